@@ -117,3 +117,72 @@ def manifest(path, which, **kw):
     except Exception as e:
         return True, f"manifest lookup of {path!r} raised {type(e).__name__}: {e}"
     return got != "text/x", f"manifest lookup of {path!r} gave media type {got!r}"
+
+
+# parallel to h_xpath.TWICE + ONCE_MORE
+SPECS2 = [
+    (lambda c, s: c.get_reference_mark(name=s), ["text:reference-mark", "text:reference-mark-start"], "text:name"),
+    (lambda c, s: c.get_text_change(idx=s), ["text:change", "text:change-start"], "text:change-id"),
+    (lambda c, s: (c.get_references(name=s) or [None])[0], ["text:reference-ref"], "text:ref-name"),
+]
+
+
+def lookup_twice(name, k2=0, **kw):
+    fn, tags, attr = SPECS2[k2]
+    notes = []
+    for target in tags:
+        # decoys of EVERY tag of the union under other names come first in the document
+        body = Element.from_tag("office:text")
+        for tg in tags:
+            for nm in (name + "x", "zz"):
+                e = Element.from_tag(f"<{tg}/>")
+                e._Element__element.set(_clark(attr), nm)
+                body._Element__element.append(e._Element__element)
+        e = Element.from_tag(f"<{target}/>")
+        e._Element__element.set(_clark(attr), name)
+        body._Element__element.append(e._Element__element)
+        try:
+            got = fn(body, name)
+        except Exception as ex:  # noqa: BLE001
+            return True, f"lookup of {name!r} raised {type(ex).__name__}: {ex}"
+        if got is None or got._Element__element.get(_clark(attr)) != name or got.tag != target:
+            notes.append(f"lookup of {target} named {name!r} returned {None if got is None else (got.tag, got._Element__element.get(_clark(attr)))}")
+    return bool(notes), "; ".join(notes) or "ok"
+
+
+def referenced_text(name, **kw):
+    from odfdo import Paragraph
+    p = Paragraph("one two three")
+    try:
+        p.set_reference_mark(name, content="two")
+        start = p.get_reference_mark_start(name=name)
+        txt = start.referenced_text()
+    except Exception as ex:  # noqa: BLE001
+        return True, f"reference mark {name!r}: raised {type(ex).__name__}: {ex}"
+    return txt != "two", f"referenced_text() of mark {name!r} gives {txt!r}, expected 'two'"
+
+
+def document_table(name, **kw):
+    from odfdo import Document, Table
+    doc = Document("spreadsheet")
+    doc.body.clear()
+    for i, nm in enumerate(["first", name, "last"]):
+        t = Table("tmp%d" % i, width=1, height=1, style="ta%d" % i)
+        t._Element__element.set(_clark("table:name"), nm)
+        doc.body.append(t)
+    try:
+        t = doc._get_table(name)
+    except Exception as ex:  # noqa: BLE001
+        return True, f"Document._get_table({name!r}) raised {type(ex).__name__}: {ex}"
+    found = None if t is None else t._Element__element.get(_clark("table:name"))
+    return found != name, f"Document._get_table({name!r}) gives the table named {found!r}"
+
+
+def file_entry_attrs(path, media, **kw):
+    from odfdo.manifest import Manifest
+    try:
+        e = Manifest.make_file_entry(path, media)
+    except Exception as ex:  # noqa: BLE001
+        return True, f"make_file_entry({path!r}, {media!r}) raised {type(ex).__name__}: {ex}"
+    got = (e.get_attribute_string("manifest:full-path"), e.get_attribute_string("manifest:media-type"))
+    return got != (path, media), f"make_file_entry({path!r}, {media!r}) carries {got!r}"
